@@ -709,12 +709,21 @@ impl Gen {
         }
     }
     fn int_expr(&mut self, v: &BigInt) -> (String, &'static str) {
-        let how = self.rng.below(3);
+        let how = if self.rng.chance(1, 2) { 0 } else { 1 + self.rng.below(2) };
         produce(v, how)
+    }
+    /// an integer that fits an i64 (so that both representations can hold it), often negative
+    fn small_int(&mut self) -> BigInt {
+        match self.rng.below(4) {
+            0 => BigInt::from(-(self.rng.below(70000) as i64)),
+            1 => BigInt::from(*self.rng.pick(&[i64::MIN, i64::MIN + 1, -1, -2, -255, -256, i64::MAX, 0, 1, -4294967296, -2147483648])),
+            2 => BigInt::from(self.rng.next() as i64),
+            _ => BigInt::from(self.rng.range(-1000, 1000)),
+        }
     }
 
     fn gen_show(&mut self) -> Case {
-        let v = self.int();
+        let v = if self.rng.chance(1, 2) { self.small_int() } else { self.int() };
         let (e, rep) = self.int_expr(&v);
         let big = rep == "b" || v.bits() > 31;
         if self.rng.chance(1, 4) {
@@ -727,6 +736,27 @@ impl Gen {
             let src = format!("F\"{{{} #{}{}{}{}}}\"", e, al, if zero { "0" } else { "" }, len, base);
             let req = format!("fmt {} {} {} {} {}:{}", base, alc, if zero { 48 } else { 32 }, len, rep, v);
             return case(&format!("fmt({},{})", base, rep), src, vec![], Render::Canon, req, big);
+        }
+        if self.rng.chance(1, 10) {
+            // a list of integers: elements are shown in repr form (decimal), whatever the flag
+            let n = 1 + self.rng.below(4);
+            let mut es = vec![];
+            let mut toks = vec![];
+            for _ in 0..n {
+                let w = if self.rng.chance(1, 2) { self.small_int() } else { self.int() };
+                let (e, r) = self.int_expr(&w);
+                es.push(e);
+                toks.push(format!("{}:{}", r, w));
+            }
+            let l = format!("[{}]", es.join(", "));
+            let src = match self.rng.below(5) {
+                0 => format!("str({})", l),
+                1 => format!("$({})", l),
+                2 => format!("repr({})", l),
+                3 => format!("F\"{{{} #x}}\"", l),
+                _ => format!("F\"{{{}}}\"", l),
+            };
+            return case("show(list)", src, vec![], Render::Canon, format!("showlist {}", toks.join(",")), true);
         }
         let kinds = ["str", "$", "fd", "x", "X", "b", "o", "print", "repr", "fD", "x", "b", "o"];
         let k = *self.rng.pick(&kinds);
